@@ -123,6 +123,11 @@ def check(ctx):
     # statistics) is not edited through what its accessors return
     from ..rules.escape import check_tree_state_not_mutated
     check_tree_state_not_mutated(ctx)
+    # the rows a chunk is cut into come from the sparse readers: stored
+    # values are not placed by pointer scatter (a cell after an empty cell
+    # would be counted towards the cluster of its neighbour; rule of C05)
+    from .C05 import check_scatter
+    check_scatter(ctx)
     from .C05 import check_tiles
     check_tiles(ctx, ('diff_exp.precompute_from_anndata',
                       'diff_exp.precompute_utils'), floor=1)
@@ -609,6 +614,7 @@ def check_rowwise_cpm(ctx):
 # ----------------------------------------------------------------------
 
 def check_sentinel(ctx):
+    check_chunk_row_positions(ctx)
     db = ctx.db
     fi = db.fn('diff_exp.precompute_from_anndata:_process_chunk')
     ctx.touch(fi)
@@ -1124,3 +1130,53 @@ def check_count_thresholds(ctx):
     if seen != set(want):
         raise AnalysisError('summary_stats_for_chunk: counting statistics '
                             f'not recognised ({sorted(seen)})')
+
+
+def check_chunk_row_positions(ctx, rule='R-SPACE/chunk-row-positions'):
+    """the rows added to a cluster are selected as
+    `chunk[np.where(labels == c)[0], :]`: positions found in the label
+    array are used as row numbers of the chunk.  That is right only if
+    the label array has one entry per row of the chunk, in order: it is
+    built by an *unfiltered* comprehension (or loop) over the chunk's row
+    range.  A comprehension with an `if` clause is shorter than the chunk
+    whenever the clause rejects a cell, and every later position points
+    at another cell's row."""
+    db = ctx.db
+    fi = db.fn('diff_exp.precompute_from_anndata:_process_chunk')
+    ctx.touch(fi)
+    cfg = cfg_of(fi)
+    rd = rd_of(fi)
+    ex = Expander(fi)
+    n = 0
+    for node in cfg.nodes:
+        if node.id not in rd.live or node.ast is None or node.kind not in (
+                'stmt',):
+            continue
+        for c in ast.walk(node.ast):
+            if not (isinstance(c, ast.Call) and isinstance(
+                    c.func, ast.Attribute) and c.func.attr == 'where'
+                    and len(c.args) == 1 and isinstance(
+                        c.args[0], ast.Compare)):
+                continue
+            lab = c.args[0].left
+            t = ex.expand(lab, node.id)
+            comps = [x for x in T.subterms(t)
+                     if isinstance(x, tuple) and x and x[0] == 'comp']
+            if not comps:
+                continue
+            n += 1
+            filtered = [x for x in comps if any(g[2] for g in x[3])]
+            ranged = [x for x in comps if any(
+                T.call_name(g[1]) == 'range' for g in x[3])]
+            ok = not filtered and bool(ranged)
+            ctx.ob(rule, f'_process_chunk:where#{n - 1}', fi.loc(c), ok,
+                   'the labels searched have one entry per row of the '
+                   'chunk' if ok else
+                   f'`{unparse(c)[:60]}` finds positions in an array built '
+                   'by a filtered comprehension (or not over the row '
+                   'range): it is shorter than the chunk whenever a cell '
+                   'is left out, and the positions found are used as row '
+                   'numbers of the chunk')
+    if n == 0:
+        raise AnalysisError('_process_chunk: the search of the cluster '
+                            'labels was not found')
